@@ -5,4 +5,5 @@ cd "$(dirname "$0")"
 mkdir -p work replay evidence
 cp /repo/Cargo.lock harness/Cargo.lock
 cd harness
-CARGO_NET_OFFLINE=true cargo build --offline --bins 2>&1 | tail -5
+CARGO_NET_OFFLINE=true cargo build --offline --bins --keep-going 2>&1 | tail -5 || true
+ls target/debug/ | grep "^vh_" | grep -v "\.d$" || true
